@@ -649,6 +649,7 @@ class PureScheduler:                                    # pylint: disable=r0902
         """
         for job in self.jobs:
             job._task = None                            # pylint: disable=W0212
+            job._running = False                        # pylint: disable=W0212
 
     def _backlinks(self):
         """
